@@ -37,8 +37,10 @@ func mod(a, b float64) float64 {
 	return r
 }
 
-// Day 15.9.1.2
-func Day(t float64) float64 { return math.Floor(t / MsPerDay) }
+// Day 15.9.1.2: floor(t / msPerDay), computed as (t - t mod msPerDay) / msPerDay
+// so that no rounding of the quotient can move it across an integer (fmod is
+// exact, the difference is an exact multiple of msPerDay).
+func Day(t float64) float64 { return (t - mod(t, MsPerDay)) / MsPerDay }
 
 // TimeWithinDay 15.9.1.2
 func TimeWithinDay(t float64) float64 { return mod(t, MsPerDay) }
@@ -156,10 +158,17 @@ func DateFromTime(t float64) float64 {
 func WeekDay(t float64) float64 { return mod(Day(t)+4, 7) }
 
 // HourFromTime etc. 15.9.1.10
-func HourFromTime(t float64) float64 { return mod(math.Floor(t/MsPerHour), 24) }
-func MinFromTime(t float64) float64  { return mod(math.Floor(t/MsPerMinute), 60) }
-func SecFromTime(t float64) float64  { return mod(math.Floor(t/MsPerSecond), 60) }
-func MsFromTime(t float64) float64   { return mod(t, MsPerSecond) }
+// floor(t/msPerHour) modulo 24 etc. depend only on t modulo msPerDay (24, 60
+// and 60 divide the day evenly), and on that residue (< 8.64e7) the quotients
+// are far from any rounding hazard.
+func HourFromTime(t float64) float64 { return math.Floor(TimeWithinDay(t) / MsPerHour) }
+func MinFromTime(t float64) float64 {
+	return mod(math.Floor(TimeWithinDay(t)/MsPerMinute), 60)
+}
+func SecFromTime(t float64) float64 {
+	return mod(math.Floor(TimeWithinDay(t)/MsPerSecond), 60)
+}
+func MsFromTime(t float64) float64 { return mod(t, MsPerSecond) }
 
 // MakeTime 15.9.1.11
 func MakeTime(hour, min, sec, ms float64) float64 {
@@ -225,4 +234,149 @@ func ISO(t float64) string {
 	}
 	return fmt.Sprintf("%s-%02d-%02dT%02d:%02d:%02d.%03dZ", ys, int(MonthFromTime(t))+1, int(DateFromTime(t)),
 		int(HourFromTime(t)), int(MinFromTime(t)), int(SecFromTime(t)), int(MsFromTime(t)))
+}
+
+// ------------------------------------------------------------------ parsing
+
+func digits(s string, i, n int) (int, bool) {
+	if i+n > len(s) {
+		return 0, false
+	}
+	v := 0
+	for k := 0; k < n; k++ {
+		c := s[i+k]
+		if c < '0' || c > '9' {
+			return 0, false
+		}
+		v = v*10 + int(c-'0')
+	}
+	return v, true
+}
+
+// ParseISO recognises exactly the ES5.1 15.9.1.15 Date Time String Format
+// (date-only forms YYYY, YYYY-MM, YYYY-MM-DD, each optionally followed by
+// THH:mm, THH:mm:ss or THH:mm:ss.sss and then an optional Z or +-HH:mm; years
+// either YYYY or the expanded form +-YYYYYY of 15.9.1.15.1).
+//
+// recognised is false when the text is not of that format at all (15.9.4.2
+// then allows implementation-specific fallbacks: callers must not compare).
+// When the text is of the format but an element is out of its legal range
+// (month 00/13, day 00/32 or beyond the month's length, hour 25, 24 with a
+// non-zero rest, minute/second 60, offset hour > 23 or minute > 59) t is NaN
+// (15.9.1.15 "illegal values ... means that the format String is not a valid
+// instance"; 15.9.4.2 "shall cause Date.parse to return NaN"). An absent time
+// zone offset is "Z" (ES5.1 15.9.1.15). The result is TimeClip'd.
+func ParseISO(s string) (t float64, recognised bool) {
+	i := 0
+	sign := 1.0
+	var year int
+	var ok bool
+	if len(s) > 0 && (s[0] == '+' || s[0] == '-') {
+		if s[0] == '-' {
+			sign = -1
+		}
+		if year, ok = digits(s, 1, 6); !ok {
+			return NaN, false
+		}
+		i = 7
+	} else {
+		if year, ok = digits(s, 0, 4); !ok {
+			return NaN, false
+		}
+		i = 4
+	}
+	month, day := 1, 1
+	if i < len(s) && s[i] == '-' {
+		if month, ok = digits(s, i+1, 2); !ok {
+			return NaN, false
+		}
+		i += 3
+		if i < len(s) && s[i] == '-' {
+			if day, ok = digits(s, i+1, 2); !ok {
+				return NaN, false
+			}
+			i += 3
+		}
+	}
+	hour, min, sec, ms := 0, 0, 0, 0
+	offSign, offH, offM := 1.0, 0, 0
+	if i < len(s) {
+		if s[i] != 'T' {
+			return NaN, false
+		}
+		if hour, ok = digits(s, i+1, 2); !ok {
+			return NaN, false
+		}
+		if i+3 >= len(s) || s[i+3] != ':' {
+			return NaN, false
+		}
+		if min, ok = digits(s, i+4, 2); !ok {
+			return NaN, false
+		}
+		i += 6
+		if i < len(s) && s[i] == ':' {
+			if sec, ok = digits(s, i+1, 2); !ok {
+				return NaN, false
+			}
+			i += 3
+			if i < len(s) && s[i] == '.' {
+				if ms, ok = digits(s, i+1, 3); !ok {
+					return NaN, false
+				}
+				i += 4
+			}
+		}
+		if i < len(s) {
+			switch s[i] {
+			case 'Z':
+				i++
+			case '+', '-':
+				if s[i] == '-' {
+					offSign = -1
+				}
+				if offH, ok = digits(s, i+1, 2); !ok {
+					return NaN, false
+				}
+				if i+3 >= len(s) || s[i+3] != ':' {
+					return NaN, false
+				}
+				if offM, ok = digits(s, i+4, 2); !ok {
+					return NaN, false
+				}
+				i += 6
+			}
+		}
+		if i != len(s) {
+			return NaN, false
+		}
+	}
+	y := sign * float64(year)
+	if month < 1 || month > 12 || day < 1 {
+		return NaN, true
+	}
+	leap := 0
+	if DaysInYear(y) == 366 {
+		leap = 1
+	}
+	mlen := [2][12]int{
+		{31, 28, 31, 30, 31, 30, 31, 31, 30, 31, 30, 31},
+		{31, 29, 31, 30, 31, 30, 31, 31, 30, 31, 30, 31},
+	}
+	if day > mlen[leap][month-1] {
+		return NaN, true
+	}
+	if hour > 24 || min > 59 || sec > 59 || (hour == 24 && (min != 0 || sec != 0 || ms != 0)) {
+		return NaN, true
+	}
+	if offH == 24 && offM <= 59 {
+		// HH is "00 to 24" as an element; whether a 24-hour offset is a valid
+		// instance is not decided by the text: not compared.
+		return NaN, false
+	}
+	if offH > 24 || offM > 59 {
+		return NaN, true
+	}
+	tv := MakeDate(MakeDay(y, float64(month-1), float64(day)), MakeTime(float64(hour), float64(min), float64(sec), float64(ms)))
+	tv -= offSign * (float64(offH)*MsPerHour + float64(offM)*MsPerMinute)
+	return TimeClip(tv), true
 }
